@@ -1,10 +1,167 @@
-/- Line-protocol handlers for C09 (placeholder until the property is built). -/
-import PandoraModel.Model.Basic
+/- Line-protocol handlers for C09 (interval honoured, no leak into costs); reuses the C02 input decoding. -/
+import PandoraModel.Driver.C02
+import PandoraModel.Model.IntervalWta
 
 namespace Pandora.Driver.C09
 open Lean (Json)
+open Pandora Pandora.MC Pandora.IntervalWta Pandora.Driver.C02
 
-def handle (op : String) (_j : Json) : Except String Json :=
-  throw s!"unknown op {op}"
+def vol3OfJson (j : Json) : Except String (Array (Array (Array Val))) := do
+  let impl ← listOfJson (listOfJson (listOfJson valOfJson)) j
+  return (impl.map (fun rw => (rw.map List.toArray).toArray)).toArray
+
+def at3 (v : Array (Array (Array Val))) (r c j : Nat) : Option Val := do
+  let a ← v[r]?
+  let b ← a[c]?
+  b[j]?
+
+def valEq : Val → Val → Bool
+  | .nan, .nan => true
+  | .num a, .num b => decide (a = b)
+  | _, _ => false
+
+def inPixel (x : Input) (r c k : Int) : Bool :=
+  decide (x.dminG r c * (x.sp : Int) ≤ k) && decide (k ≤ x.dmaxG r c * (x.sp : Int))
+
+/-- two runs that differ only by the requested disparities: `j` = the first input (its `dmin`/`dmax`),
+    `dmin2`/`dmax2` = the grids of the second run.  Evaluates, on the model volumes and on the observed volumes
+    `impl1`/`impl2`: same cell wherever the disparity lies in the pixel's interval in both runs
+    (`slice_of_larger`, `grid_inside_same`, `const_grid_eq_scalar`), NaN outside the pixel's interval
+    (`grid_outside_nan`). -/
+def pair (j : Json) : Except String Json := do
+  let x ← inputOfJson j
+  let dmin2 ← field j "dmin2" >>= arr2OfJson intOfJson
+  let dmax2 ← field j "dmax2" >>= arr2OfJson intOfJson
+  let y : Input := { x with dminG := fn2 dmin2 0, dmaxG := fn2 dmax2 0 }
+  let dx := dims x
+  let dy := dims y
+  let impl1 ← field j "impl1" >>= vol3OfJson
+  let impl2 ← field j "impl2" >>= vol3OfJson
+  let withModel ← boolOfJson (fieldD j "with_model" (Json.bool true))
+  let mx := costVolume x
+  let my := costVolume y
+  let mut nCompared := 0
+  let mut nOutside := 0
+  let mut badImplSame : Array Json := #[]
+  let mut badImplOutside : Array Json := #[]
+  let mut badModel : Array Json := #[]
+  let mut nBadImplSame := 0
+  let mut nBadImplOutside := 0
+  let mut nBadModel := 0
+  for r in List.range x.L.rows do
+    for c in List.range x.L.cols do
+      for jx in List.range dx.nd do
+        let k := dx.gmin * (x.sp : Int) + jx
+        let v1 := (at3 impl1 r c jx).getD Val.nan
+        if !inPixel x r c k then
+          nOutside := nOutside + 1
+          if !valEq v1 Val.nan then
+            nBadImplOutside := nBadImplOutside + 1
+            if badImplOutside.size < 3 then
+              badImplOutside := badImplOutside.push (mkObj [("run", natToJson 1), ("r", natToJson r), ("c", natToJson c), ("k", intToJson k), ("got", valToJson v1)])
+        let jy := k - dy.gmin * (x.sp : Int)
+        if 0 ≤ jy ∧ jy < dy.nd ∧ inPixel x r c k ∧ inPixel y r c k then
+          nCompared := nCompared + 1
+          let v2 := (at3 impl2 r c jy.toNat).getD Val.nan
+          if !valEq v1 v2 then
+            nBadImplSame := nBadImplSame + 1
+            if badImplSame.size < 3 then
+              badImplSame := badImplSame.push (mkObj [("r", natToJson r), ("c", natToJson c), ("k", intToJson k),
+                ("run1", valToJson v1), ("run2", valToJson v2)])
+          if withModel then
+            if mx r c jx != my r c jy.toNat then
+              nBadModel := nBadModel + 1
+              if badModel.size < 3 then
+                badModel := badModel.push (mkObj [("r", natToJson r), ("c", natToJson c), ("k", intToJson k),
+                  ("model1", cellToJson (mx r c jx)), ("model2", cellToJson (my r c jy.toNat))])
+      -- second run: NaN outside its own pixel interval
+      for jy in List.range dy.nd do
+        let k := dy.gmin * (x.sp : Int) + jy
+        if !inPixel y r c k then
+          nOutside := nOutside + 1
+          let v2 := (at3 impl2 r c jy).getD Val.nan
+          if !valEq v2 Val.nan then
+            nBadImplOutside := nBadImplOutside + 1
+            if badImplOutside.size < 3 then
+              badImplOutside := badImplOutside.push (mkObj [("run", natToJson 2), ("r", natToJson r), ("c", natToJson c), ("k", intToJson k), ("got", valToJson v2)])
+  return mkObj [
+    ("wf1", Json.bool (wf x)), ("wf2", Json.bool (wf y)),
+    ("gmin1", intToJson dx.gmin), ("gmax1", intToJson dx.gmax), ("nd1", natToJson dx.nd),
+    ("gmin2", intToJson dy.gmin), ("gmax2", intToJson dy.gmax), ("nd2", natToJson dy.nd),
+    ("n_compared", natToJson nCompared), ("n_outside", natToJson nOutside),
+    ("n_bad_impl_same", natToJson nBadImplSame), ("bad_impl_same", Json.arr badImplSame),
+    ("n_bad_impl_outside", natToJson nBadImplOutside), ("bad_impl_outside", Json.arr badImplOutside),
+    ("n_bad_model", natToJson nBadModel), ("bad_model", Json.arr badModel)]
+
+/-- a disparity map against the requested intervals.
+    `disp[r][c]` exact rationals or "nan", `valid[r][c]` Bool (flag has no invalidating bit),
+    `mode` = "pixel" (inside the pixel's own [min, max]) or "global" (inside [gmin, gmax]);
+    with `cv` (observed cost volume) and `sample = true`: the disparity must be a sample of the range whose
+    cost is a number; with `model_wta` the first-occurrence argmin/argmax of the observed costs is compared. -/
+def inside (j : Json) : Except String Json := do
+  let x ← inputOfJson j
+  let d := dims x
+  let disp ← field j "disp" >>= arr2OfJson valOfJson
+  let valid ← field j "valid_px" >>= arr2OfJson boolOfJson
+  let mode ← strOfJson (fieldD j "mode" (Json.str "pixel"))
+  let sample ← boolOfJson (fieldD j "sample" (Json.bool false))
+  let modelWta ← boolOfJson (fieldD j "model_wta" (Json.bool false))
+  let cv ← match fieldD j "cv" Json.null with
+    | Json.null => pure (#[] : Array (Array (Array Val)))
+    | v => vol3OfJson v
+  let s : Rat := ((x.sp : Int) : Rat)
+  let mut nValid := 0
+  let mut nBad := 0
+  let mut bad : Array Json := #[]
+  let mut nWtaBad := 0
+  let mut wtaBad : Array Json := #[]
+  let mut nAllNanValid := 0
+  for r in List.range x.L.rows do
+    for c in List.range x.L.cols do
+      let v := fn2 disp Val.nan r c
+      let ok := fn2 valid false r c
+      let cells : Nat → Cell := fun jj => Cell.ofVal ((at3 cv r c jj).getD Val.nan)
+      if ok then
+        nValid := nValid + 1
+        match v with
+        | .nan =>
+          nBad := nBad + 1
+          if bad.size < 3 then bad := bad.push (mkObj [("r", natToJson r), ("c", natToJson c), ("why", Json.str "valid pixel with NaN disparity")])
+        | .num q =>
+          let lo : Rat := if mode == "pixel" then ((x.dminG r c : Int) : Rat) else ((d.gmin : Int) : Rat)
+          let hi : Rat := if mode == "pixel" then ((x.dmaxG r c : Int) : Rat) else ((d.gmax : Int) : Rat)
+          let mut why := ""
+          if q < lo ∨ q > hi then why := "outside the interval"
+          if sample ∧ why == "" then
+            let kq := q * s
+            if kq.den != 1 then why := "not a multiple of 1/subpix"
+            else
+              let jj := kq.num - d.gmin * (x.sp : Int)
+              if jj < 0 ∨ jj ≥ d.nd then why := "not a sample of the range"
+              else if (cells jj.toNat).isNan then why := "cost of the chosen disparity is NaN"
+          if why != "" then
+            nBad := nBad + 1
+            if bad.size < 3 then
+              bad := bad.push (mkObj [("r", natToJson r), ("c", natToJson c), ("disp", ratToJson q),
+                ("lo", ratToJson lo), ("hi", ratToJson hi), ("why", Json.str why)])
+          if modelWta then
+            let better := if typeMeasure x.meas == "max" then numGt else numLt
+            match wta better cells d.nd with
+            | none => nAllNanValid := nAllNanValid + 1
+            | some jj =>
+              let want : Rat := (((d.gmin * (x.sp : Int) + jj : Int)) : Rat) / s
+              if want != q then
+                nWtaBad := nWtaBad + 1
+                if wtaBad.size < 3 then
+                  wtaBad := wtaBad.push (mkObj [("r", natToJson r), ("c", natToJson c), ("impl", ratToJson q), ("model", ratToJson want)])
+  return mkObj [("gmin", intToJson d.gmin), ("gmax", intToJson d.gmax), ("nd", natToJson d.nd),
+    ("n_valid", natToJson nValid), ("n_bad", natToJson nBad), ("bad", Json.arr bad),
+    ("n_wta_bad", natToJson nWtaBad), ("wta_bad", Json.arr wtaBad), ("n_valid_all_nan", natToJson nAllNanValid)]
+
+def handle (op : String) (j : Json) : Except String Json :=
+  match op with
+  | "C09.pair" => pair j
+  | "C09.inside" => inside j
+  | _ => throw s!"unknown op {op}"
 
 end Pandora.Driver.C09
